@@ -215,18 +215,19 @@ Record sp := mkSp {
   sp_string : bool; sp_ident : bool; sp_comment : bool; sp_bq : bool;
   sp_lead : bool; sp_bs : bool;
   sp_block : bool; sp_blen : N; sp_star : bool;      (* inside a block comment; its length so far; previous char was '*' *)
+  sp_esc : bool;                                       (* inside a string literal the previous char was an unescaped backslash *)
   sp_x : bytes (* reversed *); sp_ret : list bytes (* reversed *) }.
 
 Definition sp_flush (st : sp) : sp :=
   mkSp (sp_string st) (sp_ident st) (sp_comment st) (sp_bq st) (sp_lead st) (sp_bs st)
-       (sp_block st) (sp_blen st) (sp_star st) [] (rev (sp_x st) :: sp_ret st).
+       (sp_block st) (sp_blen st) (sp_star st) (sp_esc st) [] (rev (sp_x st) :: sp_ret st).
 Definition sp_pushc (c : N) (st : sp) : sp :=
   mkSp (sp_string st) (sp_ident st) (sp_comment st) (sp_bq st) (sp_lead st) (sp_bs st)
-       (sp_block st) (sp_blen st) (sp_star st) (c :: sp_x st) (sp_ret st).
+       (sp_block st) (sp_blen st) (sp_star st) (sp_esc st) (c :: sp_x st) (sp_ret st).
 Definition sp_set_string (b : bool) (t : sp) : sp :=
-  mkSp b (sp_ident t) (sp_comment t) (sp_bq t) (sp_lead t) (sp_bs t) (sp_block t) (sp_blen t) (sp_star t) (sp_x t) (sp_ret t).
+  mkSp b (sp_ident t) (sp_comment t) (sp_bq t) (sp_lead t) (sp_bs t) (sp_block t) (sp_blen t) (sp_star t) (sp_esc t) (sp_x t) (sp_ret t).
 Definition sp_set_comment (b : bool) (t : sp) : sp :=
-  mkSp (sp_string t) (sp_ident t) b (sp_bq t) (sp_lead t) (sp_bs t) (sp_block t) (sp_blen t) (sp_star t) (sp_x t) (sp_ret t).
+  mkSp (sp_string t) (sp_ident t) b (sp_bq t) (sp_lead t) (sp_bs t) (sp_block t) (sp_blen t) (sp_star t) (sp_esc t) (sp_x t) (sp_ret t).
 
 Definition sp_main (c : N) (peek : option N) (st : sp) : sp :=
   let ident_prev := sp_ident st in
@@ -238,15 +239,16 @@ Definition sp_main (c : N) (peek : option N) (st : sp) : sp :=
       (if (c =? 47) && sp_star st && (4 <=? sp_blen st + 1) then false else true, sp_blen st + 1)
     else if (c =? 47) && (match peek with Some 42 => true | _ => false end) && negb (sp_string st) && negb (sp_comment st)
     then (true, 1) else (false, sp_blen st) in
-  let st := mkSp (sp_string st) ident (sp_comment st) (sp_bq st) false (sp_bs st) blk blen (sp_star st) (sp_x st) (sp_ret st) in
+  let st := mkSp (sp_string st) ident (sp_comment st) (sp_bq st) false (sp_bs st) blk blen (sp_star st) (sp_esc st) (sp_x st) (sp_ret st) in
   (* the tail of the loop body: is_backquote_prev / is_star_prev (skipped by the `continue` inside a // comment) *)
   let fin (t : sp) := mkSp (sp_string t) (sp_ident t) (sp_comment t) (c =? 96) (sp_lead t) (sp_bs t)
-                           (sp_block t) (sp_blen t) (c =? 42) (sp_x t) (sp_ret t) in
+                           (sp_block t) (sp_blen t) (c =? 42)
+                           (sp_string t && (c =? 92) && negb (sp_esc t)) (sp_x t) (sp_ret t) in
   if (c =? 10) && sp_comment st then fin (sp_pushc c (sp_set_comment false st))
   else if sp_comment st then st                                   (* `continue` *)
   else if (c =? 34) && sp_bq st then fin (sp_flush (sp_pushc c st))
   else if (c =? 34) && negb (sp_string st) then fin (sp_set_string true (sp_pushc c (sp_flush st)))
-  else if (c =? 34) && sp_string st then fin (sp_set_string false (sp_flush (sp_pushc c st)))
+  else if (c =? 34) && sp_string st && negb (sp_esc st) then fin (sp_set_string false (sp_flush (sp_pushc c st)))
   else if (c =? 47) && (match peek with Some 47 => true | _ => false end) && negb (sp_string st) && negb in_block then
     fin (sp_set_comment true st)
   else if negb (sp_string st) then
@@ -257,8 +259,8 @@ Definition sp_step (c : N) (peek : option N) (st : sp) : sp :=
   if sp_lead st then
     if negb (c =? 92) && negb (is_ascii_ws c) then sp_main c peek st
     else if sp_bs st && (c =? 10) then
-      mkSp (sp_string st) (sp_ident st) (sp_comment st) (sp_bq st) false (sp_bs st) (sp_block st) (sp_blen st) (sp_star st) (sp_x st) (sp_ret st)
-    else mkSp (sp_string st) (sp_ident st) (sp_comment st) (sp_bq st) true (c =? 92) (sp_block st) (sp_blen st) (sp_star st) (sp_x st) (sp_ret st)
+      mkSp (sp_string st) (sp_ident st) (sp_comment st) (sp_bq st) false (sp_bs st) (sp_block st) (sp_blen st) (sp_star st) (sp_esc st) (sp_x st) (sp_ret st)
+    else mkSp (sp_string st) (sp_ident st) (sp_comment st) (sp_bq st) true (c =? 92) (sp_block st) (sp_blen st) (sp_star st) (sp_esc st) (sp_x st) (sp_ret st)
   else sp_main c peek st.
 
 Fixpoint sp_run (s : bytes) (st : sp) : sp :=
@@ -268,7 +270,7 @@ Fixpoint sp_run (s : bytes) (st : sp) : sp :=
   end.
 
 Definition split_text (s : bytes) : list bytes :=
-  let st := sp_run s (mkSp false false false false true false false 0 false [] []) in
+  let st := sp_run s (mkSp false false false false true false false 0 false false [] []) in
   rev (rev (sp_x st) :: sp_ret st).
 
 (* ------------------------------------------------------------------ configuration *)
